@@ -228,6 +228,57 @@ def newline_guarded(prog, fn, bb):
     return None
 
 
+PREDICATES = ("::is_empty", "::ends_with", "::starts_with", "::eq", "::ne", "::contains", "::is_char_boundary", "::is_some", "::is_none")
+
+
+def shapes_text(fn, call):
+    """does the result of a trimming call decide what text is emitted / consumed (it reaches `advance`, a TemplateData
+    token or the function's returned text), as opposed to only feeding a test (`prefix.trim_end_matches(' ').is_empty()`)"""
+    if call.dest is None or "p" in call.dest:
+        return True
+    tainted = {call.dest["l"]}
+    ret_text = "str" in fn.locals[0].get("s", "") or fn.locals[0].get("prim") == "str"
+    for _ in range(12):
+        grew = False
+        for bb, i, st in fn.all_stmts():
+            if st["k"] != "assign":
+                continue
+            rv = st["rv"]
+            ops_ = [rv[k] for k in ("op", "a", "b") if isinstance(rv.get(k), dict)] + [x for x in rv.get("ops", []) if isinstance(x, dict)]
+            hit = any(op_place(o) is not None and op_place(o)["l"] in tainted for o in ops_)
+            if rv["k"] in ("ref", "rawptr", "discr", "len") and isinstance(rv.get("place"), dict) and rv["place"]["l"] in tainted:
+                hit = True
+            if not hit:
+                continue
+            if rv["k"] == "agg" and rv.get("variant") == "TemplateData":
+                return True
+            l = st["place"]["l"]
+            if l == 0 and (ret_text or True):
+                return True
+            if l not in tainted:
+                tainted.add(l)
+                grew = True
+        for c in fn.calls():
+            if c.bb == call.bb:
+                continue
+            if not any(op_place(a) is not None and op_place(a)["l"] in tainted for a in c.args):
+                continue
+            if c.name.endswith("Tokenizer::advance") or c.name.endswith("::advance"):
+                return True
+            if c.name.endswith(PREDICATES):
+                continue
+            if c.dest is not None:
+                l = c.dest["l"]
+                if l == 0:
+                    return True
+                if l not in tainted:
+                    tainted.add(l)
+                    grew = True
+        if not grew:
+            break
+    return False
+
+
 def actions_of(roles, prog, fn):
     out = []
     if roles.primitive(fn):
@@ -235,6 +286,8 @@ def actions_of(roles, prog, fn):
     for c in fn.calls():
         n = c.name
         if n in TRIM_STR:
+            if not shapes_text(fn, c):
+                continue            # a trimmed copy that only feeds a test removes nothing from the output
             side = "tail" if n in TAIL_TRIM else ("head" if n in HEAD_TRIM else "both")
             out.append(Action("TRIM", side, fn, c.bb, n.rsplit("::", 1)[1]))
         elif n in roles.skipper:
